@@ -21,3 +21,4 @@ fn full_report_error() {
     assert!(sent_errors() == 1 && sent_total() == 1, "[C02][C07] exactly one error message is sent per reported word");
     core::mem::forget(s);
 }
+
